@@ -119,6 +119,7 @@ type interp struct {
 	stubCalls     map[string]int
 	stubLog       []stubCallRec // per path: every by-name stub call with its arguments
 	clock         int64         // per path: ticks of the concrete clock stub
+	heldLocks     int           // per path: mutexes currently held by the (single) goroutine
 	jsonBinds     []jsonBind
 	harnessStubs  map[string][]value
 	harnessCursor map[string]int // scripted harness stubs: next result group
@@ -163,6 +164,7 @@ func (in *interp) resetPath() {
 	in.stubCalls = map[string]int{}
 	in.stubLog = nil
 	in.clock = 0
+	in.heldLocks = 0
 	in.jsonBinds = nil
 	in.harnessStubs = map[string][]value{}
 	in.harnessCursor = map[string]int{}
@@ -835,7 +837,7 @@ func (in *interp) runPath(fn *ssa.Function) (outcome string) {
 		switch p := r.(type) {
 		case pathAbort:
 			switch p.kind {
-			case "assume", "infeasible", "stop":
+			case "assume", "infeasible", "stop", "blocked":
 				outcome = p.kind
 			case "deadlock", "exit", "bigalloc":
 				outcome = p.kind
